@@ -44,6 +44,7 @@ fn main() {
     if !args.has("verbose") {
         std::panic::set_hook(Box::new(|_| {}));
     }
+    util::start_watchdog(args.num("watchdog", 300));
     match argv[1].as_str() {
         "tables" => by_kind!(kind, tables, &args),
         "hist" => by_kind!(kind, hist, &args),
